@@ -133,7 +133,15 @@ func isExit(n paths.Node) bool { return n.IsExit() }
 // non-nil), "" unknown.
 func edgeAtom(iff *ssa.If, idx int) (string, bool) {
 	if call, nonNil, ok := paths.ErrEdge(iff, idx); ok {
-		return "err:" + calleeShort(call.Common()), nonNil
+		name := calleeShort(call.Common())
+		// a helper that only passes on the error of one inner call (`_, err := p.writeMessage(resp); return err`)
+		// fails exactly when that call fails
+		if f := call.Common().StaticCallee(); f != nil {
+			if inner := errPassThrough(f, 0); inner != "" {
+				name = inner
+			}
+		}
+		return "err:" + name, nonNil
 	}
 	a, t := condAtom(iff.Cond, idx == 0)
 	if a != "" && !strings.HasPrefix(a, "call:") {
@@ -145,6 +153,41 @@ func edgeAtom(iff *ssa.If, idx int) (string, bool) {
 		}
 	}
 	return a, t
+}
+
+// errPassThrough: every return of f yields, as its error, nil or the error result of calls of one and the same
+// callee; returns that callee's short name.
+func errPassThrough(f *ssa.Function, depth int) string {
+	if f.Blocks == nil || depth > 1 {
+		return ""
+	}
+	rs := f.Signature.Results()
+	if rs.Len() == 0 || !types.Identical(rs.At(rs.Len()-1).Type(), types.Universe.Lookup("error").Type()) {
+		return ""
+	}
+	inner := ""
+	for _, ret := range ir.Returns(f) {
+		op := ir.ReturnOperand(ret, len(ret.Results)-1)
+		if k, ok := op.(*ssa.Const); ok && k.IsNil() {
+			continue
+		}
+		var call *ssa.Call
+		switch x := ir.SeeThrough(op).(type) {
+		case *ssa.Extract:
+			call, _ = x.Tuple.(*ssa.Call)
+		case *ssa.Call:
+			call = x
+		}
+		if call == nil || call.Common().IsInvoke() || call.Common().StaticCallee() == nil || call.Common().StaticCallee().Pkg != f.Pkg {
+			return ""
+		}
+		name := calleeShort(call.Common())
+		if inner != "" && inner != name {
+			return ""
+		}
+		inner = name
+	}
+	return inner
 }
 
 // atomAlias maps the atom of a condition written out in place (`(m.connectFlags>>1)&1 == 1`) to the atom of the
@@ -263,10 +306,27 @@ func condAtom(v ssa.Value, truth bool) (string, bool) {
 				}
 			}
 		}
-		// ordered comparison with a constant on the right: x > k, x < k, x >= k, x <= k
-		if k, ok := x.Y.(*ssa.Const); ok && k.Value != nil {
-			if what := describeOperand(x.X); what != "" {
-				switch x.Op {
+		// ordered comparison with a constant: x > k, x < k, x >= k, x <= k (k > x is x < k, ...)
+		ox, oy, oop := x.X, x.Y, x.Op
+		if _, lc := ox.(*ssa.Const); lc {
+			if _, rc := oy.(*ssa.Const); !rc {
+				ox, oy = oy, ox
+				oop = map[token.Token]token.Token{token.GTR: token.LSS, token.LSS: token.GTR, token.GEQ: token.LEQ, token.LEQ: token.GEQ}[oop]
+			}
+		}
+		if k, ok := oy.(*ssa.Const); ok && k.Value != nil && oop != token.ILLEGAL {
+			if what := describeOperand(ox); what != "" {
+				// a length is not negative: len < 1, len <= 0 are len == 0; len > 0, len >= 1 are len != 0
+				if strings.HasPrefix(what, "len(") {
+					kv := k.Value.ExactString()
+					switch {
+					case oop == token.LSS && kv == "1", oop == token.LEQ && kv == "0":
+						return "eq:" + what + ":0", truth
+					case oop == token.GTR && kv == "0", oop == token.GEQ && kv == "1":
+						return "eq:" + what + ":0", !truth
+					}
+				}
+				switch oop {
 				case token.GTR:
 					return "gt:" + what + ":" + k.Value.ExactString(), truth
 				case token.LSS:
@@ -308,6 +368,28 @@ func condAtom(v ssa.Value, truth bool) (string, bool) {
 // describeOperand names a side-effect-free operand of a comparison: a call result,
 // a field load, len(field), field&const, an extracted tuple element.
 func describeOperand(v ssa.Value) string {
+	// a value that is also stored into exactly one field (`flags := rest[0]; m.connectFlags = flags`) is named
+	// after that field
+	if _, isCall := v.(*ssa.Call); !isCall {
+		if refs := v.Referrers(); refs != nil {
+			name, n := "", 0
+			for _, r := range *refs {
+				if st, ok := r.(*ssa.Store); ok && st.Val == v {
+					if p := ir.PathOf(st.Addr); len(p.Fields) > 0 {
+						if _, local := p.Root.(*ssa.Alloc); !local {
+							name = p.Class()
+							n++
+						}
+					}
+				}
+			}
+			if n == 1 {
+				if u, ok := v.(*ssa.UnOp); !ok || u.Op != token.MUL || len(ir.PathOf(u.X).Fields) == 0 || ir.PathOf(u.X).Fields[len(ir.PathOf(u.X).Fields)-1] == "[]" {
+					return name
+				}
+			}
+		}
+	}
 	switch o := v.(type) {
 	case *ssa.Call:
 		if bi, ok := o.Common().Value.(*ssa.Builtin); ok {
